@@ -114,13 +114,37 @@ def check_case(pts, t, k, th, v):
     return None
 
 
-def check_path(segs):
-    p = oc.path_from(segs, False)
+def seg_sum(p):
     tot = 0
     for s in p.asSegments():
         tot += s.length
+    return tot
+
+
+def check_path(segs, hist=None):
+    p = oc.path_from(segs, False)
+    tot = seg_sum(p)
     if p.length != tot:
         return "path length %r is not the sum of its segments' lengths %r" % (p.length, tot)
+    # ... and stays so through a history of in-place operations, with the length read in between (a remembered value must not go stale);
+    # under scaling by k the length is multiplied by |k|, rigid motions and reversal leave it alone (to the C04 tolerance)
+    for op in hist or []:
+        before = p.length
+        if op[0] == "scale":
+            p.scale(op[1]); want = abs(op[1]) * before
+        elif op[0] == "translate":
+            p.translate(Point(*op[1])); want = before
+        elif op[0] == "rotate":
+            p.rotate(Point(*op[1]), op[2]); want = before
+        elif op[0] == "reverse":
+            p.reverse(); want = before
+        else:
+            p.round(); want = None
+        now, tot = p.length, seg_sum(p)
+        if now != tot:
+            return "after %r (length read before it) the path length %r is not the sum of its segments' lengths %r" % (op, now, tot)
+        if want is not None and abs(now - want) > 2e-2 * max(want, 1e-9) + 1e-9:
+            return "after %r the path length is %r, expected %r" % (op, now, want)
     return None
 
 
@@ -141,7 +165,7 @@ def special_cubic(rng):
 def run_one(kind, inp):
     if kind == "seg":
         return check_case([tuple(p) for p in inp["pts"]], inp["t"], inp["k"], inp["th"], tuple(inp["v"]))
-    return check_path([[tuple(p) for p in s] for s in inp["segs"]])
+    return check_path([[tuple(p) for p in s] for s in inp["segs"]], inp.get("hist"))
 
 
 def search(ctx, budget):
@@ -159,7 +183,18 @@ def search(ctx, budget):
                 pts[0] = cur
                 cur = pts[-1]
                 segs.append(pts)
-            inp = {"segs": segs}
+            hist = []
+            for _ in range(rng.randint(0, 4)):
+                r = rng.random()
+                if r < 0.4:
+                    hist.append(["scale", rng.choice([-1.0, 2.0, -2.5, 0.5, -0.25, 3.0])])
+                elif r < 0.6:
+                    hist.append(["translate", [float(rng.randint(-50, 50)), float(rng.randint(-50, 50))]])
+                elif r < 0.8:
+                    hist.append(["rotate", [float(rng.randint(-50, 50)), float(rng.randint(-50, 50))], rng.uniform(-3, 3)])
+                else:
+                    hist.append(["reverse"])
+            inp = {"segs": segs, "hist": hist}
             kind = "path"
         else:
             order = 2 + i % 3
